@@ -14,7 +14,8 @@ EXPLANATION = (
     "NameServer uses only methods both have; every deletion path of NameServer.remove excludes the server's own entry; an "
     "argument whose length the SQL search binds as a count reaches it as a set; removal counts are the length of the very list "
     "that was removed / 1 after a guarded delete; a missing key raises KeyError on both back-ends; the generic filter matches "
-    "literally (startswith on the raw name, regex compiled without flags). Not decided: sqlite's own semantics, reopen equality, histories, injected "
+    "literally (startswith on the raw name, flag-less regex applied with match()); no ordering comparison on the name column; "
+    "what is stored is the URI text printed verbatim from its fields (shared with C19). Not decided: sqlite's own semantics, reopen equality, histories, injected "
     "statement failures."
 )
 
